@@ -1,4 +1,29 @@
-(* C19 - placeholder until the theorems are in place. *)
-Require Import RQ.Base.
-Theorem C19_placeholder : True. Proof. exact I. Qed.
-Print Assumptions C19_placeholder.
+(* C19 - Pixel word layout, byte views and PNG export agree. *)
+Require Import RQ.Base RQ.Pixel RQ.PixelFormat RQ.MiscProofs.
+
+(* the byte view of a word is B, G, R, A (little endian) and determines the word *)
+Theorem C19_bytes_are_bgra : forall p, word_bytes p = [get_b p; get_g p; get_r p; get_a p].
+Proof. exact word_bytes_are_bgra. Qed.
+Theorem C19_word_bytes_roundtrip : forall p, 0 <= p < 4294967296 -> bytes_word (word_bytes p) = p.
+Proof. exact word_bytes_roundtrip. Qed.
+Print Assumptions C19_word_bytes_roundtrip.
+Theorem C19_byte_view_length : forall buf, length (byte_view buf) = (4 * length buf)%nat.
+Proof. exact byte_view_length. Qed.
+(* write_png: alpha unchanged, each colour floor(c*255/a) for premultiplied pixels, transparent pixels passed through,
+   4 bytes per pixel in buffer (row-major) order *)
+Theorem C19_png_pixel : forall p,
+  let a := get_a p in let r := get_r p in let g := get_g p in let b := get_b p in
+  0 < a -> r <= a -> g <= a -> b <= a -> 0 <= r -> 0 <= g -> 0 <= b -> a <= 255 ->
+  png_pixel p = [r * 255 / a; g * 255 / a; b * 255 / a; a].
+Proof. exact png_pixel_unpremultiplies. Qed.
+Print Assumptions C19_png_pixel.
+Theorem C19_png_transparent : forall p, get_a p = 0 -> png_pixel p = [get_r p; get_g p; get_b p; 0].
+Proof. exact png_pixel_transparent. Qed.
+Theorem C19_png_row_major : forall buf, length (png_bytes buf) = (4 * length buf)%nat.
+Proof. exact png_is_row_major. Qed.
+(* from_vec keeps a buffer of the right size unchanged and always yields w*h words *)
+Theorem C19_from_vec : forall w h v, (zlen v = w * h -> from_vec w h v = v) /\ (0 <= w * h -> zlen (from_vec w h v) = w * h).
+Proof. exact (fun w h v => conj (from_vec_exact w h v) (from_vec_length w h v)). Qed.
+Print Assumptions C19_from_vec.
+Example C19_example : word_bytes 2155876368 = [16; 16; 128; 128] /\ png_pixel 2155876368 = [255; 31; 31; 128].
+Proof. vm_compute. split; reflexivity. Qed.
